@@ -316,8 +316,26 @@ def r2(ctx, ci):
                       "cache", {"mutation": norm(s)}, s,
                       path=g.describe(p) if p else None)
     ctx.floor("C08-R2", n, 6, "mutation sites in mutating Region methods")
-    # unbound loop variable in the builder
+    # the builder fills the cache on every path on which it found it empty
     bfi = meths[builder[0]]
+    gb = cfgs[builder[0]]
+    fill = [nn for nn, s_ in gb.stmt.items() if gb.kind[nn] == "stmt" and
+            assigns_cache(s_) and not is_cache_reset(s_)]
+    guards = [nn for nn, s_ in gb.stmt.items() if gb.kind[nn] == "if" and
+              "demoted" in norm(s_.test)]
+    if len(guards) == 1 and fill:
+        p = gb.path_avoiding(guards[0], EXIT, fill, first_label="T")
+        ctx.check("C08-R2", bfi, "cache filled whenever it was found empty",
+                  p is None, "a path from the 'cache is empty' branch "
+                  "reaches the return without assigning self.demoted (e.g. "
+                  "when the level loop runs zero times for maxdepth=1): "
+                  "get_demoted() and sky_within() then answer from an empty "
+                  "cache although the region has pixels",
+                  node=gb.stmt[guards[0]], path=gb.describe(p) if p else None)
+    else:
+        raise AnalysisError("C08-R2: cache guard / fill not recognised in "
+                            "%s" % builder[0])
+    # unbound loop variable in the builder
     n2 = 0
     for blk in _blocks(bfi.node):
         for i, s in enumerate(blk):
